@@ -11,6 +11,7 @@ import builtins
 import enum
 import time
 import os
+import sys
 import types
 
 try:
@@ -277,10 +278,12 @@ class Engine:
             return False           # engine model objects, callables
         return hasattr(v, '__dict__')
 
-    def note_read(self, how, name, v):
+    def note_read(self, how, name, v, g=None):
         if id(v) in self.subst:
             return
         if self._is_foreign_mutable(v):
+            if how == 'global' and g is not None and isinstance(v, (list, dict, set)) and effectively_constant_global(g, name):
+                return      # a lookup table: no code of the package can change it (every use is a read form)
             self.foreign_reads.setdefault('%s %s (%s)' % (how, name, type(v).__name__), v)
 
     def note_write(self, how, o):
@@ -1683,7 +1686,7 @@ class Engine:
                 raise PyRaise(self.make_exc(UnboundLocalError, "local variable '%s' referenced before assignment" % e.id))
             if e.id in g:
                 v = g[e.id]
-                self.note_read('global', e.id, v)
+                self.note_read('global', e.id, v, g)
                 return self.subst.get(id(v), v)
             try:
                 return getattr(builtins, e.id)
@@ -1914,6 +1917,75 @@ class Engine:
             else:
                 kwargs[k.arg] = self.ev(k.value, env, g)
         return args, kwargs
+
+
+_CONST_GLOBALS = {}
+_READ_METHODS = {'get', 'items', 'keys', 'values', 'index', 'count', 'copy'}
+
+
+def effectively_constant_global(g, name):
+    """a module-level container bound once at module level and used, in every module of its top-level package, only in
+    read forms (G[k] loads, `k in G`, iteration, len(G), G.get/items/keys/values(...)): no code of the package can change
+    it, so reading it is reading a program constant.  Any other mention of the identifier (a store through it, a mutator
+    call, passing it on, aliasing it, rebinding it) makes it state."""
+    modname = g.get('__name__')
+    key = (modname, name)
+    if key in _CONST_GLOBALS:
+        return _CONST_GLOBALS[key]
+    ok = False
+    try:
+        mod = sys.modules[modname]
+        root = os.path.dirname(os.path.abspath(mod.__file__))
+        top = modname.split('.')[0]
+        while os.path.basename(root) != top and os.path.dirname(root) != root:
+            root = os.path.dirname(root)
+        ok = os.path.basename(root) == top
+        binds = 0
+        for dp, dn, fn in os.walk(root):
+            if not ok:
+                break
+            for f in fn:
+                if not f.endswith('.py'):
+                    continue
+                path = os.path.join(dp, f)
+                tree = ast.parse(open(path).read())
+                home = os.path.abspath(path) == os.path.abspath(mod.__file__)
+                parents = {}
+                for n in ast.walk(tree):
+                    for c in ast.iter_child_nodes(n):
+                        parents[c] = n
+                for n in ast.walk(tree):
+                    if isinstance(n, ast.alias) and (n.name == name or n.name.endswith('.' + name)) and n.asname not in (None, name):
+                        ok = False
+                    if isinstance(n, (ast.Global, ast.Nonlocal)) and name in n.names:
+                        ok = False
+                    ident = (isinstance(n, ast.Name) and n.id == name) or (isinstance(n, ast.Attribute) and n.attr == name)
+                    if not ident:
+                        continue
+                    par = parents.get(n)
+                    if isinstance(n.ctx, (ast.Store, ast.Del)):
+                        # the one module-level binding in the home module
+                        if home and isinstance(n, ast.Name) and isinstance(par, (ast.Assign, ast.AnnAssign)) and parents.get(par) is tree:
+                            binds += 1
+                            continue
+                        ok = False
+                        continue
+                    if isinstance(par, ast.Subscript) and par.value is n and isinstance(par.ctx, ast.Load):
+                        continue
+                    if isinstance(par, ast.Compare) and n in par.comparators and all(isinstance(o, (ast.In, ast.NotIn)) for o in par.ops):
+                        continue
+                    if isinstance(par, (ast.For, ast.comprehension)) and par.iter is n:
+                        continue
+                    if isinstance(par, ast.Call) and isinstance(par.func, ast.Name) and par.func.id in ('len', 'sorted', 'min', 'max', 'sum', 'any', 'all') and n in par.args:
+                        continue
+                    if isinstance(par, ast.Attribute) and par.value is n and par.attr in _READ_METHODS and isinstance(parents.get(par), ast.Call) and parents[par].func is par:
+                        continue
+                    ok = False
+        ok = ok and binds == 1
+    except Exception:       # noqa
+        ok = False
+    _CONST_GLOBALS[key] = ok
+    return ok
 
 
 class _Native:
